@@ -537,6 +537,9 @@ class AbstractExcelInPython(ABC):
             return '#NUM!'
         if num_chars < 0:
             return '#VALUE!'
+        if not text:
+            # пустая ячейка - пустой текст (как в _left и _right)
+            return self.EmptyCell()
         if start_num > len(text):
             return self.EmptyCell()
 
